@@ -379,6 +379,20 @@ fn window_recovery(rng: &mut Rng, seed: u64, verbose: bool) -> CaseOut {
     out.evaluations += 1;
     let probes: Vec<&crate::exec::OpRec> = log.ops.iter().filter(|o| o.step >= probe_from && o.kind == "publish1").collect();
     let quiescent_before = log.ops.iter().find(|o| o.step >= probe_from).and_then(|o| o.snap_before.as_ref()).is_some_and(|sn| sn.tx.retained.is_empty() && sn.tx.release.is_empty());
+    for (i, o) in log.ops.iter().enumerate() {
+        for sn in [&o.snap_before, &o.snap_after].into_iter().flatten() {
+            out.count("slot_tables_inspected", 1);
+            if let Some(d) = crate::monitors::c17::twice(&sn.tx) {
+                out.violations.push(viol("C17", "C17/slots/one-exchange-occupies-two-slots", format!("op#{} {}: {}", i, o.kind, d)));
+                if verbose {
+                    for l in render(&log, &w, 400) {
+                        println!("{}", l);
+                    }
+                }
+                return out;
+            }
+        }
+    }
     if probes.len() == window + 1 && quiescent_before {
         out.count("send_windows_refilled", 1);
         let accepted = probes.iter().filter(|o| matches!(o.outcome, Outcome::Ok(OkKind::Handle(_)))).count();
@@ -392,6 +406,16 @@ fn window_recovery(rng: &mut Rng, seed: u64, verbose: bool) -> CaseOut {
                 for l in render(&log, &w, 400) {
                     println!("{}", l);
                 }
+            }
+        }
+    } else if probes.len() == window + 1 && !w.watchdog_tripped && log.ops.iter().all(|o| !matches!(o.outcome, Outcome::Watchdog | Outcome::CallerTimeout | Outcome::Cancelled)) {
+        // the broker ended every exchange and every call came back: whatever is still held now
+        // is a slot that no acknowledgement will ever free
+        let sn = log.ops.iter().find(|o| o.step >= probe_from).and_then(|o| o.snap_before.as_ref());
+        out.violations.push(viol("C17", "C17/leak/entries-remain-after-every-exchange-ended", format!("window of {} (Receive Maximum {:?}), every exchange ended ({:?}) and every call returned, yet retained {:?} / release {:?} are still held", window, rm, ended_by, sn.map(|s| s.tx.retained.iter().map(|e| e.packet_id).collect::<Vec<_>>()), sn.map(|s| s.tx.release.iter().map(|e| e.packet_id).collect::<Vec<_>>()))));
+        if verbose {
+            for l in render(&log, &w, 400) {
+                println!("{}", l);
             }
         }
     } else {
